@@ -73,5 +73,29 @@ Definition printer_fields : list frow := [
   mkF "Printer" "levelIncs" true false false false;
   mkF "Printer" "nestedBinary" true false false false;
   mkF "Printer" "pendingHdocs" true false false false;
-  mkF "Printer" "tabsPrinter" false false false false
+  mkF "Printer" "tabsPrinter" false false false false;
+  mkF "Printer" "tabsPrinter.w" false false false false;
+  mkF "Printer" "tabsPrinter.tabWriter" false false false false;
+  mkF "Printer" "tabsPrinter.cols" false false false false;
+  mkF "Printer" "tabsPrinter.indentSpaces" false false false false;
+  mkF "Printer" "tabsPrinter.binNextLine" false false false false;
+  mkF "Printer" "tabsPrinter.swtCaseIndent" false false false false;
+  mkF "Printer" "tabsPrinter.spaceRedirects" false false false false;
+  mkF "Printer" "tabsPrinter.keepPadding" false false false false;
+  mkF "Printer" "tabsPrinter.minify" false false false false;
+  mkF "Printer" "tabsPrinter.singleLine" false false false false;
+  mkF "Printer" "tabsPrinter.funcNextLine" false false false false;
+  mkF "Printer" "tabsPrinter.wantSpace" false false false false;
+  mkF "Printer" "tabsPrinter.wantNewline" false false false false;
+  mkF "Printer" "tabsPrinter.mustNewline" false false false false;
+  mkF "Printer" "tabsPrinter.wroteSemi" false false false false;
+  mkF "Printer" "tabsPrinter.pendingComments" false false false false;
+  mkF "Printer" "tabsPrinter.firstLine" false false false false;
+  mkF "Printer" "tabsPrinter.line" false false false false;
+  mkF "Printer" "tabsPrinter.lastLevel" false false false false;
+  mkF "Printer" "tabsPrinter.level" false false false false;
+  mkF "Printer" "tabsPrinter.levelIncs" false false false false;
+  mkF "Printer" "tabsPrinter.nestedBinary" false false false false;
+  mkF "Printer" "tabsPrinter.pendingHdocs" false false false false;
+  mkF "Printer" "tabsPrinter.tabsPrinter" false false false false
 ].
